@@ -491,3 +491,83 @@ Proof.
   intros B file K HB HK Hc lines HL. exists (len lines). split; [now apply count_lemma|].
   destruct (cover_lemma (len lines) K HL HK) as (H1 & H2 & H3). repeat split; auto.
 Qed.
+
+(* ================================ part C: order of the command-line options ================================ *)
+From Coq Require Import Permutation.
+
+Lemma parse_step_comm {A} (st : pstate A) (o1 o2 : opt A) : opt_kind o1 <> opt_kind o2 ->
+  match parse_step st o1 with Some s => parse_step s o2 | None => None end =
+  match parse_step st o2 with Some s => parse_step s o1 | None => None end.
+Proof.
+  intros H. destruct st as [ls s e c lg m wd].
+  destruct o1, o2; cbn in H; try congruence; cbn;
+    repeat match goal with |- context [if ?b then _ else _] => destruct b; cbn end;
+    try reflexivity; destruct wd; reflexivity.
+Qed.
+
+Lemma parse_perm {A} (o o' : list (opt A)) : Permutation o o' -> NoDup (map opt_kind o) ->
+  forall st, parse_opts_from st o = parse_opts_from st o'.
+Proof.
+  induction 1 as [| x l l' P IH | x y l | l l' l'' P1 IH1 P2 IH2]; intros ND st.
+  - reflexivity.
+  - cbn. inversion ND; subst. destruct (parse_step st x); [now apply IH | reflexivity].
+  - cbn [map] in ND. inversion ND as [|? ? Hk ND']; subst.
+    assert (opt_kind y <> opt_kind x) by (intros E; apply Hk; left; now symmetry).
+    cbn [parse_opts_from].
+    pose proof (parse_step_comm st y x H) as C.
+    destruct (parse_step st y) as [s1|], (parse_step st x) as [s2|]; cbn in C |- *;
+      [rewrite C | rewrite C | rewrite <- C | ]; reflexivity.
+  - rewrite (IH1 ND). apply IH2. eapply Permutation_NoDup; [apply Permutation_map; exact P1 | exact ND].
+Qed.
+
+Lemma options_order_lemma : forall (A : Type) (o o' : list (opt A)),
+  NoDup (map opt_kind o) -> Permutation o o' -> parse_opts o = parse_opts o'.
+Proof. intros. unfold parse_opts. now apply parse_perm. Qed.
+
+(* options of other kinds leave configLines / startLine / endLine alone *)
+Lemma parse_rest_keeps {A} (r : list (opt A)) : forall st,
+  (forall o, In o r -> opt_kind o <> 0%nat /\ opt_kind o <> 1%nat) ->
+  exists st', parse_opts_from st r = Some st' /\
+    p_lines st' = p_lines st /\ p_start st' = p_start st /\ p_end st' = p_end st.
+Proof.
+  induction r as [|o r IH]; intros st H.
+  - exists st. repeat split; reflexivity.
+  - destruct (H o (or_introl eq_refl)) as [K0 K1].
+    assert (exists s1, parse_step st o = Some s1 /\ p_lines s1 = p_lines st /\ p_start s1 = p_start st /\ p_end s1 = p_end st)
+      as (s1 & E & L1 & L2 & L3).
+    { destruct st as [ls s e c lg m wd]. destruct o; cbn in K0, K1; try congruence; eexists; (split; [reflexivity|]); repeat split. }
+    destruct (IH s1 (fun o' Hin => H o' (or_intror Hin))) as (st' & E' & M1 & M2 & M3).
+    exists st'. cbn. rewrite E. split; [exact E'|]. repeat split; congruence.
+Qed.
+
+Lemma in_perm_front {A} (x : A) l : In x l -> exists r, Permutation l (x :: r).
+Proof.
+  intros H. apply in_split in H as (l1 & l2 & ->). exists (l1 ++ l2). symmetry. apply Permutation_middle.
+Qed.
+
+(* any command line that carries -batch f and -lines a-b once each (plus any other options once each, in any
+   order) executes what the model's [executed (a, b)] says *)
+Lemma cmd_range_lemma : forall (A : Type) (opts : list (opt A)) d lines a b,
+  NoDup (map opt_kind opts) -> In (OBatch d lines) opts -> In (OLinesRange a b) opts ->
+  cmd_executed opts = executed (a, b) lines.
+Proof.
+  intros A opts d lines a b ND Hb Hl.
+  destruct (in_perm_front _ _ Hb) as (r1 & P1).
+  assert (Hl1 : In (OLinesRange a b) r1).
+  { pose proof (Permutation_in _ P1 Hl) as [E|]; [discriminate | assumption]. }
+  destruct (in_perm_front _ _ Hl1) as (r2 & P2).
+  assert (P : Permutation opts (OBatch d lines :: OLinesRange a b :: r2))
+    by (etransitivity; [exact P1 | now constructor]).
+  unfold cmd_executed. rewrite (options_order_lemma A _ _ ND P).
+  assert (ND' : NoDup (map opt_kind (OBatch d lines :: OLinesRange a b :: r2)))
+    by (eapply Permutation_NoDup; [apply Permutation_map; exact P | exact ND]).
+  cbn [map opt_kind] in ND'. inversion ND' as [|? ? N0 ND1]; subst. inversion ND1 as [|? ? N1 ND2]; subst.
+  assert (Hr : forall o, In o r2 -> opt_kind o <> 0%nat /\ opt_kind o <> 1%nat).
+  { intros o Hin. split; intros E.
+    - apply N0. right. rewrite <- E. now apply in_map.
+    - apply N1. rewrite <- E. now apply in_map. }
+  unfold parse_opts, executed, lines_arg. cbn [parse_opts_from pinit parse_step app].
+  destruct (b <? a); [reflexivity|].
+  destruct (parse_rest_keeps r2 (mk_pstate lines (a - 1) b 10 false 0 (Some d)) Hr) as (st' & E & L1 & L2 & L3).
+  rewrite E. cbn in L1, L2, L3. now rewrite L1, L2, L3.
+Qed.
